@@ -139,22 +139,13 @@ func vC09enum(spec vSpec) {
 }
 
 func H_C09_enum() {
-	d := 2
-	if vTier() == 1 {
-		d = 3
-	}
-	kinds := "mls"
-	if vTier() == 1 {
-		kinds = "mlsn"
-	}
-	vC09enum(vSpec{Depth: d, Width: 2, Kinds: kinds, KeyAlpha: "a-@", KeyMin: 0, KeyMax: 1, StrAlpha: "x", StrMax: 0})
+	d := vP("depth", 2, 3)
+	kinds := []string{"mls", "mlsn"}[vP("nil", 0, 1)]
+	vC09enum(vSpec{Depth: d, Width: vP("width", 2, 2), Kinds: kinds, KeyAlpha: "a-@", KeyMin: 0, KeyMax: 1, StrAlpha: "x", StrMax: 0})
 }
 
 func H_C09_enum_deep() {
-	d := 4
-	if vTier() == 1 {
-		d = 6
-	}
+	d := vP("depth", 4, 6)
 	vC09enum(vSpec{Depth: d, Width: 1, Kinds: "mlsn", KeyAlpha: "a-@", KeyMin: 0, KeyMax: 2, StrAlpha: "x", StrMax: 0})
 }
 
@@ -175,22 +166,13 @@ func vC09resolve(spec vSpec) {
 }
 
 func H_C09_resolve() {
-	d := 3
-	if vTier() == 1 {
-		d = 4
-	}
-	kinds := "mls"
-	if vTier() == 1 {
-		kinds = "mlsn"
-	}
-	vC09resolve(vSpec{Depth: d, Width: 2, Kinds: kinds, KeyAlpha: "ab", KeyMin: 1, KeyMax: 1, StrAlpha: "x", StrMax: 0, NoListInList: true})
+	d := vP("depth", 3, 4)
+	kinds := []string{"mls", "mlsn"}[vP("nil", 0, 1)]
+	vC09resolve(vSpec{Depth: d, Width: vP("width", 2, 2), Kinds: kinds, KeyAlpha: "ab", KeyMin: 1, KeyMax: 1, StrAlpha: "x", StrMax: 0, NoListInList: true})
 }
 
 func H_C09_resolve_deep() {
-	d := 6
-	if vTier() == 1 {
-		d = 8
-	}
+	d := vP("depth", 6, 8)
 	vC09resolve(vSpec{Depth: d, Width: 1, Kinds: "mlsn", KeyAlpha: "ab", KeyMin: 1, KeyMax: 1, StrAlpha: "x", StrMax: 0, NoListInList: true})
 }
 
